@@ -152,6 +152,16 @@ def gen_log(rng, n_events, fmt=None, long_line=None):
             pool.append(e)
         evs.append((e, len(lines)))
         lines.append(e.render(rng, fmt))
+    if rng.random() < 0.15:
+        # two hard links to one name from different targets, same profile: distinct accesses
+        prof = rng.choice(PROFILES)
+        name = rng.choice(NAMES[:8])
+        for tgt in rng.sample(NAMES[8:20], 2):
+            e = Ev([('apparmor', 'ALLOWED', None), ('operation', 'link', None), ('class', 'file', None), ('profile', prof, None), ('name', name, None),
+                    ('pid', str(rng.randint(2, 99999)), 'bare'), ('comm', 'ln', None), ('requested_mask', 'l', None), ('denied_mask', 'l', None),
+                    ('fsuid', '1000', 'bare'), ('ouid', '1000', 'bare'), ('target', tgt, None)])
+            evs.append((e, len(lines)))
+            lines.append(e.render(rng, fmt))
     if long_line is not None:
         pos = rng.randrange(len(lines) + 1)
         lines.insert(pos, 'x' * long_line)
